@@ -71,7 +71,13 @@ func realArgs(ev Event) []Val {
 // reported once per call (with the first case) and shared by the others.
 var stripeVerdicts = map[string]bool{}
 
-func checkStripes(r *Report, rule, key, pos string, ws workerSite, sites []workerSite, rect *Agg, rectName string) (rowK, colK string, ok bool) {
+func checkStripes(r *Report, rule, key, pos string, ws workerSite, sites []workerSite, rect *Agg, rectName string, shift ...*Form) (rowK, colK string, ok bool) {
+	// shift = (dx, dy): the pixel visited in iteration (col, row) is (col+dx, row+dy) — loops that
+	// count relative to the rectangle's origin
+	shiftX, shiftY := formInt(0), formInt(0)
+	if len(shift) == 2 && shift[0] != nil && shift[1] != nil {
+		shiftX, shiftY = shift[0], shift[1]
+	}
 	cf := factsOf(ws)
 	if len(cf.Loops) != 2 {
 		r.Violate(rule, key, pos, fmt.Sprintf("worker has %d counting loops; required an outer row loop and an inner column loop", len(cf.Loops)))
@@ -101,8 +107,8 @@ func checkStripes(r *Report, rule, key, pos string, ws workerSite, sites []worke
 			continue
 		}
 		o, in := c.Loops[0], c.Loops[1]
-		cases = append(cases, rowCase{F: o.First, E: o.Limit, Step: o.Step, Conds: sb.CaseConds})
-		if !(in.First.Equal(minX) && in.Limit.Equal(maxX) && in.Step.Equal(formInt(1))) {
+		cases = append(cases, rowCase{F: o.First.Add(shiftY), E: o.Limit.Add(shiftY), Step: o.Step, Conds: sb.CaseConds})
+		if !(in.First.Add(shiftX).Equal(minX) && in.Limit.Add(shiftX).Equal(maxX) && in.Step.Equal(formInt(1))) {
 			okCol = false
 			colWhy = fmt.Sprintf("columns start at %s, step %s, end before %s — required %s.Min.X step 1 < %s.Max.X", trunc(in.First.String(), 80), trunc(in.Step.String(), 40), trunc(in.Limit.String(), 80), rectName, rectName)
 		}
@@ -234,11 +240,42 @@ func runC10(p *Program, r *Report) {
 		// the source rectangle = src.Bounds()
 		srcB := appAgg(e, "invoke:Bounds", "src")
 		dstB := appAgg(e, "invoke:Bounds", "dst")
-		rowK, colK, ok := checkStripes(r, "C10.S1", key+" stripes", ws.Pos, ws, sites, srcB, "src.Bounds()")
+		// the pixel an iteration works on is where it reads the source: (col, row) itself, or
+		// (col, row) + a loop-invariant origin when the loops count relative to the rectangle
+		var shX, shY *Form
+		if len(cf.Loops) == 2 {
+			rk, ck := formAtom(cf.Loops[0].K), formAtom(cf.Loops[1].K)
+			for k := range cf.Calls {
+				ev := &cf.Calls[k]
+				if !(ev.Kind == "loop-invoke" && ev.Fn == "At") && !strings.HasSuffix(ev.Fn, ".RGBA64At") {
+					continue
+				}
+				ra := realArgs(*ev)
+				var xv, yv Val
+				if ev.Kind == "loop-invoke" && len(ra) == 2 {
+					xv, yv = ra[0], ra[1]
+				} else if len(ra) == 3 {
+					xv, yv = ra[1], ra[2]
+				}
+				xf, okx := xv.(*Form)
+				yf, oky := yv.(*Form)
+				if okx && oky {
+					dx0, dy0 := xf.Sub(ck), yf.Sub(rk)
+					inv := func(f *Form) bool { a := f.Atoms(); return !a[cf.Loops[0].K] && !a[cf.Loops[1].K] }
+					if inv(dx0) && inv(dy0) {
+						shX, shY = dx0, dy0
+					}
+				}
+			}
+		}
+		rowK, colK, ok := checkStripes(r, "C10.S1", key+" stripes", ws.Pos, ws, sites, srcB, "src.Bounds()", shX, shY)
 		if !ok {
 			continue
 		}
 		i, j := formAtom(rowK), formAtom(colK)
+		if shX != nil && shY != nil {
+			i, j = i.Add(shY), j.Add(shX)
+		}
 		dx := mustForm(dstB, 0, 0).Sub(mustForm(srcB, 0, 0))
 		dy := mustForm(dstB, 0, 1).Sub(mustForm(srcB, 0, 1))
 
